@@ -491,7 +491,16 @@ def sorted_keys_symbolic(keys):
 
 # ---- harness helpers
 
-def fresh_int(ctx: Ctx, name: str, lo=None, hi=None) -> SymInt:
+def fresh_int(ctx: Ctx, name: str, lo=None, hi=None):
+    if ctx.concrete is not None:
+        # concrete replay mode: plain Python ints from the model, no proxies; bounds are checked like assumptions
+        v = int(ctx.concrete.get(name, lo if isinstance(lo, int) else 0))
+        for b, ok in ((lo, lambda b: v >= b), (hi, lambda b: v <= b)):
+            if b is not None and not ok(b):
+                from .core import Abort
+                raise Abort()
+        ctx.vars[name] = z3.IntVal(v)
+        return v
     t = ctx.declare(name, z3.Int(name))
     if lo is not None:
         ctx.assume(t >= lift(lo))
@@ -500,7 +509,11 @@ def fresh_int(ctx: Ctx, name: str, lo=None, hi=None) -> SymInt:
     return SymInt(t)
 
 
-def fresh_bool(ctx: Ctx, name: str) -> SymBool:
+def fresh_bool(ctx: Ctx, name: str):
+    if ctx.concrete is not None:
+        v = bool(ctx.concrete.get(name, False))
+        ctx.vars[name] = z3.BoolVal(v)
+        return v
     return SymBool(ctx.declare(name, z3.Bool(name)))
 
 
@@ -611,6 +624,17 @@ class RopeStr:
             else:
                 out.append((base, lo, hi))
         return out
+
+    def tiles(self, base, a, b):
+        """Fork-free z3 formula: the non-empty pieces, in order, are consecutive ranges of `base` covering [a, b)."""
+        pos = lift(a)
+        ok = z3.BoolVal(True)
+        for bs, lo, hi in self.pieces:
+            if bs != base:
+                return z3.BoolVal(False)
+            ok = z3.And(ok, lo <= hi, z3.Or(lo == hi, lo == pos))
+            pos = z3.If(lo < hi, hi, pos)
+        return z3.And(ok, pos == lift(b))
 
     def same_as(self, o) -> "SymBool":
         """Strict: equal for every content of the base texts."""
